@@ -6,9 +6,9 @@
    [Panic site] (an assert!/expect/index of the Rust code), [OutOfFuel]; [returns r] says r is
    Ok or Err.  [true] selects the code as it is now; [false] is the code before fix: 5295e98
    (coq/Refuted/C18.v). *)
-From Coq Require Import List NArith Permutation.
+From Coq Require Import List NArith Bool Permutation.
 From DesVerif Require Import Ndl.Bytes Ndl.BytesProps Ndl.Grammar Ndl.GrammarProps Ndl.Def Ndl.Transform Ndl.Order
-     Ndl.Total Ndl.Errors Ndl.Cands Ndl.Build Ndl.Denote Ndl.DenoteTree Ndl.BuildProps Ndl.BuildConns Ndl.Model Ndl.Doc.
+     Ndl.Total Ndl.Errors Ndl.Cands Ndl.Subst Ndl.Build Ndl.Denote Ndl.DenoteTree Ndl.BuildProps Ndl.BuildConns Ndl.Model Ndl.Doc.
 Import ListNotations.
 Local Open Scope nat_scope.
 
@@ -221,6 +221,35 @@ Theorem C18_non_conforming_type_argument : forall fx self_args nodes gb req name
 Proof. exact non_conforming_argument_error. Qed.
 Print Assumptions C18_non_conforming_type_argument.
 
+
+(* ---- the substitution step of generics (all instantiations) ---- *)
+(* `x: G(A1..An)`: the field gets G's archetype in which EVERY submodule field runs through the substitution
+   parameter_i := elaborated A_i ([subst_field]: a field whose type is the parameter takes the argument's node,
+   any other field is unchanged); gates and connections of G are kept *)
+Theorem C18_substitution_every_field : forall fx field self typ nodes node reqs res,
+  tc_args typ <> [] -> lookup (tc_ident typ) nodes = Some (node, reqs) ->
+  (fx && is_binding (tc_args self) (tc_ident typ)) = false ->
+  transform_submodule fx field self typ nodes = Ok res ->
+  res = (field, mkNode (n_typ node) (map (subst_field (sigma_of nodes reqs (tc_args typ))) (n_subs node))
+                       (n_gates node) (n_conns node)).
+Proof. exact transform_submodule_substitutes. Qed.
+Print Assumptions C18_substitution_every_field.
+
+(* every field of parameter type -- the first, the second, the n-th use alike -- carries the argument's node *)
+Theorem C18_parameter_field_gets_argument : forall sigma f n b r,
+  n_typ n = b -> (forall b' r', In (b', r') ((b, r) :: sigma) -> ~ In (n_typ r') (map fst ((b, r) :: sigma))) ->
+  subst_field ((b, r) :: sigma) (f, n) = (f, r).
+Proof. exact subst_field_hit. Qed.
+Print Assumptions C18_parameter_field_gets_argument.
+
+(* no field keeps a placeholder (the arguments' own symbols not being parameter names) *)
+Theorem C18_no_placeholder_left : forall fx self_args nodes reqs args node node',
+  replace_loop fx self_args nodes reqs args node = Ok node' ->
+  (forall b r, In (b, r) (sigma_of nodes reqs args) -> ~ In (n_typ r) (map g_binding reqs)) ->
+  forall s, In s (n_subs node') -> ~ In (n_typ (snd s)) (map g_binding reqs).
+Proof. exact no_placeholder_left. Qed.
+Print Assumptions C18_no_placeholder_left.
+
 (* a definition's error is transform's error when everything before it elaborates *)
 Theorem C18_first_error_is_reported : forall fx pre e post arch arch' links k,
   elaborate fx pre arch links = Ok arch' ->
@@ -316,3 +345,10 @@ Example C18_example_unknown_link :
        2; 77; 49; 0; 2; 1; 112; 4; 113; 91; 50; 93; 0; 0;
        1; 2; 76; 48; 100; 5; 1000; 0] = [2; 4].
 Proof. vm_compute. reflexivity. Qed.
+
+(* M0 { pair: M1(M3) }; M1(T0 <- M2) { left: T0, right[2]: T0 }; M2 { port }; M3: inherit M2 { up }:
+   both fields of M1's instance are M3 nodes (77 51 = "M3"; no 84 48 = "T0" left) *)
+Example C18_example_parameter_used_twice :
+  exists rest, run [1; 1; 2; 77; 48; 4; 2; 77; 48; 0; 0; 1; 4; 112; 97; 105; 114; 6; 77; 49; 40; 77; 51; 41; 0; 12; 77; 49; 40; 84; 48; 32; 60; 45; 32; 77; 50; 41; 0; 0; 2; 4; 108; 101; 102; 116; 2; 84; 48; 8; 114; 105; 103; 104; 116; 91; 50; 93; 2; 84; 48; 0; 2; 77; 50; 0; 1; 4; 112; 111; 114; 116; 0; 0; 2; 77; 51; 1; 2; 77; 50; 1; 2; 117; 112; 0; 0; 0; 1] =
+    [1; 2; 77; 48; 0; 1; 4; 112; 97; 105; 114; 0; 2; 77; 49; 0; 2; 4; 108; 101; 102; 116; 0; 2; 77; 51; 2; 2; 117; 112; 0; 4; 112; 111; 114; 116; 0; 0; 0; 5; 114; 105; 103; 104; 116; 3; 2; 77; 51; 2; 2; 117; 112; 0; 4; 112; 111; 114; 116; 0; 0; 0; 0; 0] ++ rest.
+Proof. eexists. vm_compute. reflexivity. Qed.
